@@ -517,9 +517,16 @@ impl<T: Payload> Ctx<T> {
     }
 
     pub fn run(&mut self, p: &Program) {
+        let n = p.threads[self.t].ops.len();
+        self.run_range(p, 0, n);
+        self.finish();
+    }
+
+    /// operations [from, to) of this thread
+    pub fn run_range(&mut self, p: &Program, from: usize, to: usize) {
         ctl::register_thread(self.t);
         let ops = p.threads[self.t].ops.clone();
-        for (idx, op) in ops.iter().enumerate() {
+        for (idx, op) in ops.iter().enumerate().skip(from).take(to - from) {
             let tag = match op {
                 _ if op.is_send_like() => Some(p.tag(self.t, idx)),
                 Op::Poll(slot, _) | Op::FDrop(slot) => self.fut_tags[*slot as usize],
@@ -559,7 +566,6 @@ impl<T: Payload> Ctx<T> {
                 prefix_ok: out.prefix_ok,
             });
         }
-        self.finish();
     }
 
     /// End of the thread: futures (slot order), sender handles (top first),
